@@ -14,7 +14,7 @@ from __future__ import annotations
 import ast
 import sys
 
-from ..repo import AnalysisError, attr_chain, norm
+from ..repo import AnalysisError, attr_chain, norm, walk_no_nested
 from ..cfg import CFG, node_calls
 
 LEVEL = "other"
@@ -38,6 +38,7 @@ def run(ctx):
         "abstract data lengths 1 and >=2, whether every path from the read to the replacements evaluates the test on the last "
         "character (guards on len(data)/truthiness of data are decided, all other tests explored both ways).")
     r.not_decided = NOT_DECIDED
+    publish_rules(ctx)
     r.rule("C05.1", "CR LF replacement precedes lone CR replacement on the same variable", floor=1)
     r.rule("C05.2", "carry-over stores are paired (buffer<->truncate, re-inject<->clear)", floor=2)
     r.rule("C05.3", "every non-empty read evaluates the trailing-CR / lead-surrogate test before normalisation", floor=2)
@@ -192,6 +193,67 @@ def chunk_invariants(ctx):
             wrong=[(len(pre) == 1 and len(back) == 1 and not ok, None)])
 
 
+def publish_rules(ctx):
+    """C05.6: (a) whatever readChunk publishes as the chunk has been through the lone-CR replacement on every path;
+    (b) the line/column position of the chunk being replaced is accumulated (from the *old* chunkSize) on every path that
+    replaces or resets the chunk; (c) charsUntil treats "no match" as a stop only when the offset is not at the chunk end."""
+    r = ctx.r
+    r.rule("C05.6", "published chunks are normalised; position accumulated before the chunk is replaced; charsUntil continues across a chunk end", floor=5)
+    f = ctx.repo.func(REL, "HTMLUnicodeInputStream.readChunk")
+    cfg = CFG(f.node)
+    pubs = [x for x in cfg.stmt_nodes() if x.kind == "stmt" and isinstance(x.ast, ast.Assign) and
+            any(attr_chain(t) == ["self", "chunk"] for t in x.ast.targets) and
+            not (isinstance(x.ast.value, ast.Constant) and x.ast.value.value == "")]
+    if not pubs:
+        raise AnalysisError("readChunk publishes no chunk")
+    for p in pubs:
+        var = norm(p.ast.value)
+
+        def is_cr_replace(x, var=var):
+            return x.kind == "stmt" and isinstance(x.ast, ast.Assign) and norm(x.ast.targets[0]) == var and \
+                isinstance(x.ast.value, ast.Call) and isinstance(x.ast.value.func, ast.Attribute) and x.ast.value.func.attr == "replace" and \
+                len(x.ast.value.args) == 2 and isinstance(x.ast.value.args[0], ast.Constant) and x.ast.value.args[0].value == "\r" and \
+                isinstance(x.ast.value.args[1], ast.Constant) and x.ast.value.args[1].value == "\n" and norm(x.ast.value.func.value) == var
+        bad = cfg.must_precede([p], is_cr_replace)
+        r.check("C05.6", not bad, "normalised-before-publish::%s@%d" % (var, pubs.index(p)), "%s:%d" % (REL, p.ast.lineno),
+                "readChunk publishes `%s` as the chunk on a path that has not replaced lone CR by LF (path: %s): the tokenizer sees a "
+                "carriage return" % (var, " -> ".join(bad[0][1][:6]) if bad else ""), detail={"store": norm(p.ast)})
+    acc = [x for x in cfg.stmt_nodes() if x.kind == "stmt" and isinstance(x.ast, ast.Assign) and
+           {"self.prevNumLines", "self.prevNumCols"} <= {norm(e) for t in x.ast.targets for e in (t.elts if isinstance(t, ast.Tuple) else [t])}]
+    if len(acc) != 1:
+        raise AnalysisError("readChunk: position accumulation statement not found")
+    r.idiom("C05.6", norm(acc[0].ast.value) == "self._position(self.chunkSize)", "position-accumulates-old-chunk", "%s:%d" % (REL, acc[0].ast.lineno),
+            "the accumulated position is `%s`, not the position at the end of the old chunk" % norm(acc[0].ast.value),
+            wrong=[(norm(acc[0].ast.value) in ("self._position(self.chunkOffset)", "self._position(0)"), None)])
+    resets = [x for x in cfg.stmt_nodes() if x.kind == "stmt" and isinstance(x.ast, ast.Assign) and
+              any(attr_chain(t) in (["self", "chunkSize"], ["self", "chunkOffset"], ["self", "chunk"]) for t in x.ast.targets)]
+    for x in resets:
+        bad = cfg.must_precede([x], lambda y: y is acc[0])
+        r.check("C05.6", not bad, "position-before::%s" % norm(x.ast)[:40], "%s:%d" % (REL, x.ast.lineno),
+                "readChunk executes `%s` on a path on which the position of the chunk being discarded has not been added to "
+                "prevNumLines/prevNumCols: position() (and the positions of errors reported at EOF) fall back to the start of that chunk"
+                % norm(x.ast), detail={"store": norm(x.ast)})
+    # (c)
+    g = ctx.repo.func(REL, "HTMLUnicodeInputStream.charsUntil")
+    outer = [n for n in walk_no_nested(g.node) if isinstance(n, ast.If) and norm(n.test) in ("m is None", "not m", "m == None")]
+    if len(outer) != 1:
+        r.idiom("C05.6", False, "charsuntil-no-match", g.where, "charsUntil: `if m is None` not found")
+        return
+    inner = [n for n in outer[0].body if isinstance(n, ast.If)]
+    ok_tests = ("self.chunkOffset != self.chunkSize", "self.chunkOffset < self.chunkSize", "self.chunkSize != self.chunkOffset",
+                "self.chunkOffset != len(self.chunk)", "self.chunkOffset < len(self.chunk)")
+    shape = len(inner) == 1 and len(inner[0].body) == 1 and isinstance(inner[0].body[0], ast.Break)
+    t = norm(inner[0].test) if inner else ""
+    uncond = any(isinstance(s, ast.Break) for s in outer[0].body)
+    r.idiom("C05.6", shape and t in ok_tests, "charsuntil-no-match", "%s:%d" % (REL, outer[0].lineno),
+            "charsUntil: the no-match test `%s` is not recognised" % t,
+            wrong=[(shape and "chunkOffset" not in t,
+                    "charsUntil stops on `%s` when nothing matches; when the offset is at the end of the chunk the run may continue in "
+                    "the next chunk, so a run of characters that starts exactly at a chunk boundary is cut short" % t),
+                   (uncond, "charsUntil stops whenever nothing matches, even at the end of a chunk")],
+            detail={"test": t})
+
+
 def thorough(ctx):
     from .. import selftest
     selftest.run(ctx, sys.modules[__name__])
@@ -200,6 +262,12 @@ def thorough(ctx):
 def mutants():
     from ..selftest import TextMutant as T
     return [
+        T("charsuntil-stop-at-chunk-end", REL, "                if self.chunkOffset != self.chunkSize:\n                    break",
+          "                if self.chunk:\n                    break", "C05.6"),
+        T("publish-before-normalise", REL, "        # Replace invalid characters\n        data = data.replace(\"\\r\\n\", \"\\n\")\n        data = data.replace(\"\\r\", \"\\n\")\n\n        self.chunk = data\n        self.chunkSize = len(data)\n",
+          "        self.chunk = data\n        self.chunkSize = len(data)\n        # Replace invalid characters\n        data = data.replace(\"\\r\\n\", \"\\n\")\n        data = data.replace(\"\\r\", \"\\n\")\n", "C05.6"),
+        T("position-after-reset", REL, "        self.prevNumLines, self.prevNumCols = self._position(self.chunkSize)\n\n        self.chunk = \"\"\n        self.chunkSize = 0\n        self.chunkOffset = 0\n",
+          "        self.chunk = \"\"\n        self.chunkSize = 0\n        self.chunkOffset = 0\n        self.prevNumLines, self.prevNumCols = self._position(self.chunkSize)\n", "C05.6"),
         T("swap-replaces", REL, '        data = data.replace("\\r\\n", "\\n")\n        data = data.replace("\\r", "\\n")',
           '        data = data.replace("\\r", "\\n")\n        data = data.replace("\\r\\n", "\\n")', "C05.1"),
         T("no-truncate", REL, "                self._bufferedCharacter = data[-1]\n                data = data[:-1]",
